@@ -77,6 +77,7 @@ type Ctx struct {
 	gavals          map[*ssa.Global]*aval
 	lastFoldRecords []int
 	lastFoldFields  map[*types.Var]*wval
+	bceL            *bceListing
 }
 
 func shortPkg(path string) string {
